@@ -3,11 +3,15 @@
    orders x snapshot-fed third replica).  The tree CRDT itself (crdt/tree.go:
    merge forwarding, splits, unknown-split-sibling sweeps) has NO Coq model in
    this development, so the matrix is decided by exhaustive execution on the
-   real code (engine tree), not by a theorem.  PARTIAL: what is proved is the
-   convergence of the attribute tables that Tree.Style / RemoveStyle (and
+   real code (engine tree), not by a theorem.  PARTIAL: what is proved is
+   (1) the convergence of the attribute tables that Tree.Style / RemoveStyle (and
    Text.Style) write: every node's attributes are last-writer-wins registers,
-   and any two style operations with distinct tickets commute on every table. *)
+   and any two style operations with distinct tickets commute on every table;
+   (2) the edit-edit pairs whose ranges lie in the text of one element: on the
+   character-level model of Tree.Edit for that fragment (Crdt/TreeText.v, tied to
+   the real crdt.Tree by engine treetext) two concurrent edits commute. *)
 From YV Require Import Crdt.RHT Proofs.RHTProofs.
+From YV Require Import Base.Ticket Crdt.TextRGA Crdt.TreeText Proofs.TextProofs Proofs.TreeTextProofs.
 
 Theorem C19_style_ops_commute_partial : forall h a b,
   aop_ticket a <> aop_ticket b ->
@@ -24,3 +28,22 @@ Theorem C19_later_ops_respect_observable_equality : forall h1 h2 o,
   req h1 h2 -> req (rht_apply h1 o) (rht_apply h2 o).
 Proof. exact apply_respects. Qed.
 Print Assumptions C19_later_ops_respect_observable_equality.
+
+(* text inside one element: two concurrent edits (insert, delete, replace of character ranges),
+   each made on a state the other had not seen, give the same characters, tombstones and order in
+   both execution orders *)
+Theorem C19_text_edits_in_one_element_commute_partial : forall pfa pta valsa ta va pfb ptb valsb tb vb l,
+  ta <> tb ->
+  pos_tk_ne pfa tb -> pos_tk_ne pta tb -> pos_tk_ne pfb ta -> pos_tk_ne ptb ta ->
+  known va tb = false -> known vb ta = false ->
+  honest pfa pta ta va l -> honest pfb ptb tb vb l ->
+  option_map shape (obind (tree_edit pfa pta valsa ta va l) (tree_edit pfb ptb valsb tb vb)) =
+  option_map shape (obind (tree_edit pfb ptb valsb tb vb l) (tree_edit pfa pta valsa ta va)).
+Proof. exact tree_text_edit_commute. Qed.
+Print Assumptions C19_text_edits_in_one_element_commute_partial.
+
+(* on every range the fragment covers, Tree.Edit is RGATreeSplit.edit *)
+Theorem C19_tree_text_edit_is_text_edit : forall pf pt vals t v l,
+  honest pf pt t v l -> tree_edit pf pt vals t v l = edit pf pt vals t v l.
+Proof. exact tree_edit_is_edit. Qed.
+Print Assumptions C19_tree_text_edit_is_text_edit.
